@@ -45,7 +45,7 @@ def _make_change(x: Any, kind: str, n: int, sources: list) -> dict | None:
             return {"v": (x.v if isinstance(x.v, int) and not isinstance(x.v, bool) else 0) + 1 + n % 2}
         if "a" in fs:
             return {"a": x.a + "!"}
-        if "i" in fs:
+        if "i" in fs and isinstance(x.i, int):
             return {"i": x.i + 1}
         return None
     if kind == "noncompare":
@@ -224,7 +224,13 @@ def check_case(data: dict, lab: Labels) -> None:
     twin_registered = any(registered(n) and n is not x and _sig(n, sources) == sig_x for n in all_live)
 
     if data["op"] == "replace":
-        n = x.replace(**change)
+        try:
+            n = x.replace(**change)
+        except TypeError as e:
+            # every init field can be given, whatever it is called (`self`, `node`, `cls`, ...)
+            require("multiple values for argument" not in str(e), "replace-refuses-a-field-by-its-name",
+                    f"{type(x).__name__}.replace({', '.join(change)}=...): {e}")
+            raise
         detached.add(id(x))
         require(ASTNode.get_any(x.id) is not x, "replace-original-still-registered", x.id)
     else:
